@@ -135,18 +135,25 @@ pub fn check_alias(ctx: &Ctx, probs: &[f64]) -> bool {
 }
 
 /// (b) one run: draw sites / distributions (and strategies when `strategies`)
-pub fn check_run(ctx: &Ctx, tree: &Tree, method: RefMethod, spec: ParamSpec, iters: u64, script: BTreeMap<cfr::verif::Key, usize>, fallback: Fallback, strategies: bool) -> Verdict {
+pub fn check_run(ctx: &Ctx, tree: &Tree, method: RefMethod, spec: ParamSpec, iters: u64, script: BTreeMap<cfr::verif::Key, usize>, fallback: Fallback, strategies: bool, threads: usize) -> Verdict {
     let res = guarded(|| -> Result<_, String> {
         let game = build(tree).map_err(|e| format!("valid game rejected: {:?}", e))?;
         let al = align(tree, &game)?;
         let decider = Pinned::new(script.clone(), fallback);
-        let out = run_impl(tree, &game, method, iters, 0.0, 1, None, spec.implementation(), &decider)?;
+        // threads == 1: the public single-threaded path; threads == 2: the multi-threaded
+        // implementation with a single-task frontier (task target 1: deterministic)
+        let out = if threads == 1 {
+            run_impl(tree, &game, method, iters, 0.0, 1, None, spec.implementation(), &decider)?
+        } else {
+            crate::multi::gated(|| run_impl(tree, &game, method, iters, 0.0, threads, Some(1), spec.implementation(), &decider))?
+        };
         Ok((out, decider.take_log(), al))
     });
     match res {
         Ok(Ok((out, log, al))) => {
             ctx.add(&ctx.transitions, log.len() as u64);
-            let replay = case_json(tree, method, spec, iters, fallback, &log);
+            let mut replay = case_json(tree, method, spec, iters, fallback, &log);
+            replay["threads"] = json!(threads);
             // at most one draw per (site, pass), visible before any translation
             let mut seen = BTreeMap::new();
             for d in &log {
@@ -239,9 +246,16 @@ pub fn run(ctx: &Ctx) -> i32 {
             // observer mode: the production generator draws freely
             for method in super::c08::METHODS {
                 for iters in [1u64, 4] {
-                    let v = check_run(ctx, tree, method, spec, iters, BTreeMap::new(), Fallback::Free, shared);
+                    let v = check_run(ctx, tree, method, spec, iters, BTreeMap::new(), Fallback::Free, shared, 1);
                     tally(ctx, &v);
                     ctx.count("observer_mode_runs_(free_generator)", 1);
+                    // the multi-threaded implementation has its own traversals and its own per-pass
+                    // renewal of the draws (every solve builds a thread pool: a subset of the games)
+                    if method != RefMethod::Full && iters == 4 && (gi % 16 == 0 || ctx.thorough() && tree.num_internal() <= 2 || tree.num_internal() > 6 && tree.num_internal() < 12) {
+                        let v = check_run(ctx, tree, method, spec, iters, BTreeMap::new(), Fallback::Free, shared, 2);
+                        tally(ctx, &v);
+                        ctx.count("observer_mode_runs_of_the_multi_threaded_implementation", 1);
+                    }
                 }
             }
         }
@@ -308,7 +322,7 @@ pub fn replay(ctx: &Ctx, val: &Value) -> i32 {
             num => Fallback::Hash(num.as_u64().unwrap()),
         };
         // a replay of an observer-mode run pins the recorded outcomes
-        check_run(ctx, &tree, super::c08::method_from(val["method"].as_str().unwrap()), ParamSpec::from_json(&val["params"]), val["iters"].as_u64().unwrap(), crate::explore::script_from_json(&val["script"]), fallback, true) != Verdict::Violation
+        check_run(ctx, &tree, super::c08::method_from(val["method"].as_str().unwrap()), ParamSpec::from_json(&val["params"]), val["iters"].as_u64().unwrap(), crate::explore::script_from_json(&val["script"]), fallback, true, val["threads"].as_u64().unwrap_or(1) as usize) != Verdict::Violation
     };
     println!("replay {}", if ok { "passes" } else { "fails" });
     if ok { 0 } else { 1 }
